@@ -416,6 +416,8 @@ class Subject:
             st.call_signatures_validity = val
         elif name == 'fast_parser':
             st.fast_parser = val
+        elif name == 'cropped_file_size':
+            st._cropped_file_size = val
         else:
             raise HarnessError('unknown knob %r' % name)
         return 'ok'
@@ -790,8 +792,7 @@ def tree_digest(node):
 
 def fresh_tree_digest(code, script):
     import parso
-    if code is None:
-        code = script._code
+    code = script._code     # the text the Script actually analyses (read from disk / cropped by settings)
     g = script._inference_state.grammar
     mod = g.parse(code=code, cache=False, diff_cache=False)
     return tree_digest(mod)
